@@ -557,6 +557,7 @@ def _strip_paths(text):
 def run_case(case):
     classes = {}
     examples = {}
+    tim_start = os.times()
     viol = []
     positions = 0
     nontrivial = 0
@@ -578,10 +579,12 @@ def run_case(case):
                                   ("static-violation" if results[p][3] else "agree")
                                   for p in PATHS}}
     compared = 0
+    tim0 = os.times()
     if case["dyn"]:
         single = case["cls"].startswith("naming")
         got, compared = _dynamic(clean, classes, single=single)
         viol += got
+    tim1 = os.times()
     res = {"evals": len(case["elements"]), "nontrivial": nontrivial,
            "states": len(case["elements"]), "transitions": positions,
            "validated": compared, "classes": classes, "viol": viol}
@@ -589,6 +592,11 @@ def run_case(case):
         res["sample"] = sample
     if examples:
         res["extra"] = {"not_generated_examples": examples}
+    if os.environ.get("C24_TIMING"):      # development aid only
+        def cpu(tms):
+            return tms.user + tms.system + tms.children_user + tms.children_system
+        res.setdefault("extra", {})["cpu_static_s"] = cpu(tim0) - cpu(tim_start)
+        res["extra"]["cpu_executed_s"] = cpu(tim1) - cpu(tim0)
     return res
 
 
